@@ -3,19 +3,13 @@ import WM.Lemmas.CollectTop
 namespace WM.Collect
 open WM.Rank
 
-theorem dropMasked_of_pos (mask : List Bool) (m : List Posting) (hpos : ∀ p ∈ m, 0 < p.score) :
-    dropMasked 0 mask m = m := by
+theorem dropMasked_zero (mask : List Wish) (m : List Posting) : dropMasked 0 mask m = m := by
   induction m generalizing mask with
   | nil => cases mask <;> rfl
   | cons p ps ih =>
     cases mask with
     | nil => rfl
-    | cons b bs =>
-      simp only [dropMasked]
-      have hp : ¬ (p.score ≤ 0) := by
-        have := hpos p (by simp); grind
-      simp only [hp, decide_false, Bool.and_false, Bool.false_eq_true, if_false]
-      rw [ih bs (fun q hq => hpos q (List.mem_cons_of_mem _ hq))]
+    | cons b bs => simp [dropMasked, ih bs]
 
 theorem collect_total (k : Nat) (st st' : TopState) (h : Hit) (hc : st.collect k h = .ok st') :
     st'.total = st.total + 1 := by
@@ -38,12 +32,11 @@ theorem matchesLoop_total (cfg : Cfg) (final : Nat → Rat → Rat) (off : Nat) 
     ∀ (sched : List Step) (lv : Locals) (st : TopState) (tr : Trace) (st' : TopState) (sched' : List Step) (tr' : Trace),
       matchesLoop cfg (topConsume cfg final) (fun st => st.minscore) off sched m lv st tr = .ok (st', sched', tr') →
       tr'.mayHaveDropped = false →
-      (∀ p ∈ m, 0 < p.score) →
       tr.mayHaveDropped = false ∧ st'.total = st.total + m.length := by
   intro n
   induction n using Nat.strongRecOn with
   | _ n ih =>
-    intro m hmn sched lv st tr st' sched' tr' hrun hfin hpos
+    intro m hmn sched lv st tr st' sched' tr' hrun hfin
     rw [matchesLoop] at hrun
     by_cases hem : m.isEmpty = true
     · rw [if_pos hem] at hrun
@@ -78,7 +71,7 @@ theorem matchesLoop_total (cfg : Cfg) (final : Nat → Rat → Rat) (off : Nat) 
                 exact hflag
             obtain ⟨htr, hthr0⟩ := hthr
             rw [hthr0] at hr
-            rw [dropMasked_of_pos _ m hpos] at hr
+            rw [dropMasked_zero] at hr
             rw [if_neg hem] at hr
             subst hr
             exact ⟨htr, rfl, rfl⟩
@@ -93,7 +86,7 @@ theorem matchesLoop_total (cfg : Cfg) (final : Nat → Rat → Rat) (off : Nat) 
           tr1.mayHaveDropped = false ∧ (skipPhase (sched.headD Step.none) m1 lv1 tr1).1 = m1 := by
         intro m1 lv1 tr1 hflag
         unfold skipPhase at hflag ⊢
-        by_cases h : (lv1.usequality && lv1.checkquality) = true
+        by_cases h : (lv1.usequality && lv1.checkquality && lv1.minscore != 0) = true
         · rw [if_pos h] at hflag; simp at hflag
         · rw [if_neg h] at hflag ⊢; exact ⟨hflag, rfl⟩
       generalize hr : replacePhase cfg st.minscore (sched.headD Step.none) m lv tr = r at hrun
@@ -126,31 +119,14 @@ theorem matchesLoop_total (cfg : Cfg) (final : Nat → Rat → Rat) (off : Nat) 
               rw [hs, hs1] at h1; rw [hr] at h2
               simp only [List.length_cons] at h1
               omega
-            -- positivity of the rest is needed only once we know rest ⊆ m; get it after identifying s.1 = m
-            have hsub : ∀ q ∈ rest, 0 < q.score → True := fun _ _ _ => trivial
-            -- first use the IH in a form that does not need to know what `rest` is
-            by_cases hposr : ∀ q ∈ rest, 0 < q.score
-            · obtain ⟨hflag2, htot⟩ := ih rest.length hrl rest rfl _ _ st1 s.2 st' sched' tr' hrun hfin hposr
-              have h1 := hskip r.1 r.2.1 r.2.2.1 (by rw [hs]; exact hflag2)
-              have h2 := hrep r hr h1.1
-              rw [hs] at h1
-              have hm : m = p :: rest := by rw [← hs1, h1.2, h2.2.1]
-              refine ⟨h2.1, ?_⟩
-              rw [htot, collect_total _ _ _ _ hc, hm]
-              simp only [List.length_cons]; omega
-            · -- impossible: the rest is a part of `m`
-              exfalso
-              apply hposr
-              intro q hq
-              have h1 := skipPhase_spec (sched.headD Step.none) r.1 r.2.1 r.2.2.1
-              obtain ⟨d2, hd2, _⟩ := h1
-              obtain ⟨d1, _, hs1', _, _⟩ := replacePhase_spec cfg st.minscore (sched.headD Step.none) m lv tr
-              rw [hr] at hs1'
-              rw [hs, hs1] at hd2
-              apply hpos q
-              apply hs1'.subset
-              rw [← hd2]
-              exact List.mem_append_right _ (List.mem_cons_of_mem _ hq)
+            obtain ⟨hflag2, htot⟩ := ih rest.length hrl rest rfl _ _ st1 s.2 st' sched' tr' hrun hfin
+            have h1 := hskip r.1 r.2.1 r.2.2.1 (by rw [hs]; exact hflag2)
+            have h2 := hrep r hr h1.1
+            rw [hs] at h1
+            have hm : m = p :: rest := by rw [← hs1, h1.2, h2.2.1]
+            refine ⟨h2.1, ?_⟩
+            rw [htot, collect_total _ _ _ _ hc, hm]
+            simp only [List.length_cons]; omega
 
 end WM.Collect
 
@@ -162,25 +138,22 @@ theorem runSegs_total (cfg : Cfg) (final : Nat → Rat → Rat) :
       (tr' : Trace),
       runSegs cfg (topConsume cfg final) (fun st => st.minscore) segs sched st tr = .ok (st', sched', tr') →
       tr'.mayHaveDropped = false →
-      (∀ s ∈ segs, ∀ p ∈ s.postings, 0 < p.score) →
       tr.mayHaveDropped = false ∧ st'.total = st.total + (allHits cfg final segs).length := by
   intro segs
   induction segs with
   | nil =>
-    intro sched st tr st' sched' tr' hrun hfin _
+    intro sched st tr st' sched' tr' hrun hfin
     simp only [runSegs, Except.ok.injEq, Prod.mk.injEq] at hrun
     obtain ⟨rfl, _, rfl⟩ := hrun
     exact ⟨hfin, by simp [allHits]⟩
   | cons s segs ih =>
-    intro sched st tr st' sched' tr' hrun hfin hpos
+    intro sched st tr st' sched' tr' hrun hfin
     simp only [runSegs] at hrun
     split at hrun
     · cases hrun
     · next c1 sched1 tr1 h1 =>
       obtain ⟨hf1, ht1⟩ := ih sched1 c1 tr1 st' sched' tr' hrun hfin
-        (fun s' hs' => hpos s' (List.mem_cons_of_mem _ hs'))
       obtain ⟨hf0, ht0⟩ := matchesLoop_total cfg final s.off s.postings.length s.postings rfl _ _ _ _ _ _ _ h1 hf1
-        (hpos s (by simp))
       refine ⟨hf0, ?_⟩
       rw [ht1, ht0, allHits_cons]
       simp only [List.length_append, List.length_map]
